@@ -428,6 +428,88 @@ def _column_name_expr(ix):
     return node, names[0]
 
 
+def _solve_results(ix, g, depth=0):
+    """[(result items, filter items, function)] per return of a solve function; an item is (term, updates) where updates
+    are the augmented stores of the function the term was evaluated in.  Lists taken from other solve functions
+    (solve_bidirectional) are substituted."""
+    from ..arrnf import ANF
+    if depth > 3:
+        raise AnalysisError("solve functions nested too deep")
+    ps = g.params()
+    r = ANF(ix, g, param_alias={ps[0]: "net"}, strip=False).run()
+    upd = [e for e in r.stores() if e.aug]
+    out = []
+
+    def items(t):
+        if t[0] in ("list", "tuple"):
+            return [(x, upd) for x in t[1]]
+        if t[0] == "op" and t[1] == "++":
+            return items(t[2]) + items(t[3])
+        if t[0] == "proj" and t[1][0] == "call" and t[1][1][0] == "f":
+            sub = _solve_results(ix, ix.func(t[1][1][1]), depth + 1)
+            if t[2] not in (0, 2):
+                raise AnalysisError("unrecognised shape: component %d of a solve function used as list" % t[2])
+            # the normal (last) return of the callee; its early returns are checked when the callee is a stage function itself
+            return list(sub[-1][0 if t[2] == 0 else 1])
+        raise AnalysisError("unrecognised shape: result list %s" % str(t)[:100])
+    for e in r.returns():
+        v = e.value
+        if not (v[0] == "tuple" and len(v[1]) == 3):
+            raise AnalysisError("unrecognised shape: %s does not return (results, residual, filtered)" % g.qualname)
+        out.append((items(v[1][0]), items(v[1][2]), g))
+    if not out:
+        raise AnalysisError("%s has no return" % g.qualname)
+    return out
+
+
+def _pair_ok_t(new_i, old_i, cmod, cattr, pit, filt_i):
+    from ..arrnf import FULL, C, base_of, key as tkey, show as tshow
+    (new, upd), (old, _) = new_i, old_i
+    ns = (cmod or "").rsplit(".", 1)[-1]
+    colk = ("k", "%s.%s" % (ns, cattr))
+    # old: <pit>[rows, COL].copy() of the not yet updated pit
+    if not (old[0] == "call" and old[1][0] == "attr" and old[1][2] == "copy"):
+        return False, "old value is not a .copy() (%s)" % tshow(old)[:60]
+    src = old[1][1]
+    if not (src[0] == "idx" and len(src[2]) == 2):
+        return False, "old value copies %s" % tshow(src)[:60]
+    P0, rows, col = src[1], src[2][0], src[2][1]
+    if P0[0] == "upd":
+        # reading through an updated array is fine as long as the update did not touch this column
+        if any(isinstance(x, tuple) and x and x[0] == "upd" and len(x[2]) == 2 and x[2][1] == col for x in _upd_chain(P0)):
+            return False, "old value is copied after the update of the column"
+        P0 = base_of(P0)
+    want_pit = ("idx", ("idx", ("n", "net"), (C("_active_pit"),)), (C(pit),))
+    if pit is not None and tkey(P0) != tkey(want_pit):
+        return False, "old value reads %s, not the active %s pit" % (tshow(P0)[:50], pit)
+    if col != colk:
+        return False, "old value copies column %s" % tshow(col)
+    # new: the current value of the same entries
+    cur = ("idx", P0, (rows, col))
+    updates = [e for e in upd if tkey(base_of(e.base)) == tkey(P0) and len(e.index) == 2 and e.index[1] == col]
+    if tkey(new) == tkey(cur):
+        if rows != FULL and updates:
+            return False, "new value is a fancy-indexed copy taken before the update"
+    else:
+        if not any(tkey(e.index[0]) == tkey(rows) and tkey(e.value) == tkey(new) for e in updates):
+            return False, "new value %s is not the (updated) column %s of the same rows" % (tshow(new)[:60], cattr)
+    if filt_i is not None:
+        ft = filt_i[0]
+        if (ft == C(None)) != (rows == FULL):
+            return False, "row selection %s does not match filter entry %s" % (tshow(rows)[:40], tshow(ft)[:40])
+        if ft != C(None) and tkey(ft) != tkey(rows):
+            return False, "row selection %s differs from filter entry %s" % (tshow(rows)[:40], tshow(ft)[:40])
+    return True, "ok"
+
+
+def _upd_chain(t):
+    out = []
+    while isinstance(t, tuple) and t and t[0] == "upd":
+        out.append(t)
+        t = t[1]
+    return out
+
+
 def r5_5(run):
     ix = run.index
     nr, sites = _nr_sites(run)
@@ -460,39 +542,30 @@ def r5_5(run):
                 exp = EXPECTED_TOL.get(v.lower())
                 run.ob("%s|tolerance-of|%s" % (stage, v), exp is not None and tols[i] == exp,
                        "variable %s is tested against option %s (documented: %s)" % (v, tols[i], exp), w)
-        # result pairs of the registered solve function
+        # result pairs of the registered solve function (whole-function terms: temporaries, helper functions and the place
+        # where the result list is built do not matter)
         fexpr = b["funct"]
         r = ix.resolve_in(fi, fexpr.id) if isinstance(fexpr, ast.Name) else None
         if not (r and r[0] == "func"):
             raise AnalysisError("solve function %s of %s not resolvable" % (U(fexpr), stage))
         g = r[1]
         run.analysed(g)
-        for ret in returns(g.node):
-            if not (isinstance(ret.value, ast.Tuple) and len(ret.value.elts) == 3):
-                run.ob("%s|solve-returns-triple" % stage, False,
-                       "%s returns (results, residual, filtered)" % g.name, run.where(g, ret))
-                continue
-            res = fold_list(ix, g, ret.value.elts[0])
-            filt = fold_list(ix, g, ret.value.elts[2])
+        for n_ret, (res, filt, gq) in enumerate(_solve_results(ix, g)):
             key = "%s|%s" % (stage, g.name)
+            wg = run.where(g, g.node)
             run.ob("%s|result-pairs==2*len(solver_vars)" % key, len(res) == 2 * len(svars),
-                   "%s returns %d result entries for %d solver variables (needs %d)"
-                   % (g.name, len(res), len(svars), 2 * len(svars)), run.where(g, ret),
-                   detail="entries: " + ", ".join(U(e) for _, e in res))
+                   "%s returns %d result entries for %d solver variables (needs %d)" % (g.name, len(res), len(svars), 2 * len(svars)), wg)
             run.ob("%s|len(filtered)==len(solver_vars)" % key, len(filt) == len(svars),
-                   "%s returns %d filter entries for %d solver variables" % (g.name, len(filt), len(svars)),
-                   run.where(g, ret))
+                   "%s returns %d filter entries for %d solver variables" % (g.name, len(filt), len(svars)), wg)
             for i, v in enumerate(svars):
                 if 2 * i + 1 >= len(res):
                     break
-                (fn_new, new), (fn_old, old) = res[2 * i], res[2 * i + 1]
                 cname, cmod, cattr = cols[i]
-                ok, why = _pair_ok(ix, fn_new, new, fn_old, old, cmod, cattr, pits[i] if i < len(pits) else None,
-                                   filt[i][1] if i < len(filt) else None)
+                ok, why = _pair_ok_t(res[2 * i], res[2 * i + 1], cmod, cattr, pits[i] if i < len(pits) else None,
+                                     filt[i] if i < len(filt) else None)
                 run.ob("%s|pair-%d-is|%s" % (key, i, v), ok,
-                       "result pair %d is (new, old) of column %s in the %s pit with the row filter of filtered[%d]: %s"
-                       % (i, cname, pits[i] if i < len(pits) else "?", i, why), run.where(fn_new, new),
-                       detail="new=%s old=%s" % (U(new), U(old)))
+                       "result pair %d is (current value, copy taken before the update) of column %s in the %s pit with the row filter of "
+                       "filtered[%d]: %s" % (i, cname, pits[i] if i < len(pits) else "?", i, why), wg)
     run.floor(30)
 
 
@@ -616,11 +689,32 @@ def r5_4(run):
     sh = ix.func(P + ".solve_hydraulics")
     inner = [n for n in own_walk(sh.node) if isinstance(n, ast.While)]
     for wl2 in inner:
-        flag = U(wl2.test)
-        reassigned = [n for n in ast.walk(wl2) if isinstance(n, ast.Assign) and any(U(t) == flag for t in n.targets)]
-        run.ob("solve_hydraulics|restart-loop-flag-recomputed", bool(reassigned) and
-               all(isinstance(n.value, ast.Call) for n in reassigned),
-               "the restart loop recomputes its flag `%s` from _restart_connectivity_check in every pass" % flag,
+        # accepted forms: (A) `while flag: ...; flag = _restart_connectivity_check(net)`   (B) `while True: ...; if not _restart_...(net): break`
+        def is_check(e):
+            return isinstance(e, ast.Call) and callee_name(e) == "_restart_connectivity_check"
+        ok, form = False, "?"
+        if isinstance(wl2.test, ast.Name):
+            flag = wl2.test.id
+            reassigned = [n for n in ast.walk(wl2) if isinstance(n, ast.Assign) and any(U(t) == flag for t in n.targets)]
+            ok = bool(reassigned) and all(is_check(n.value) for n in reassigned) and \
+                any(n in wl2.body for n in reassigned)
+            form = "flag `%s` recomputed" % flag
+        elif isinstance(wl2.test, ast.Constant) and wl2.test.value is True and wl2.body:
+            last = wl2.body[-1]
+            brk = lambda b: len(b) == 1 and isinstance(b[0], ast.Break)
+            if isinstance(last, ast.If) and isinstance(last.test, ast.UnaryOp) and isinstance(last.test.op, ast.Not) \
+                    and is_check(last.test.operand) and brk(last.body) and not last.orelse:
+                ok = True
+            elif isinstance(last, ast.If) and is_check(last.test) and brk(last.orelse) and \
+                    (not last.body or all(isinstance(x, (ast.Continue, ast.Pass)) for x in last.body)):
+                ok = True
+            # no other way round the loop: no `continue` before the final test
+            ok = ok and not any(isinstance(n, ast.Continue) for st_ in wl2.body[:-1] for n in ast.walk(st_))
+            form = "`while True` left when the check returns False"
+        else:
+            raise AnalysisError("unrecognised shape: restart loop of solve_hydraulics `while %s`" % U(wl2.test)[:60])
+        run.ob("solve_hydraulics|restart-loop-flag-recomputed", ok,
+               "the restart loop repeats only while _restart_connectivity_check reports a changed connectivity (%s)" % form,
                run.where(sh, wl2))
     run.floor(10)
 
